@@ -85,3 +85,129 @@ class tempo_sweep_step:
             bs = [_mk_bpm(float(rng.choice([60, 120, 177.5])), 0.0, base + rng.choice([0, 0.25, 1, 2.5, 7])) for _ in range(n)]
             yield dict(n=n, bpms=bs, bpm_ix=rng.randrange(n), offset=float(rng.choice([0, 1234.5])), measure=base, bpm_val=float(rng.choice([90, 150])),
                        until_measure=rng.choice([None, base + 10.0]))
+
+
+# ---------------------------------------------------------------------------------------------------------------
+# The whole of read_pkgs at small shapes: entry, the sort, both call sites of the sweep, the note formula, the
+# hold length and the exit glue - everything the step unit leaves to the induction argument - executed from the
+# real source for symbolic measures / tempos, against an ORDER-FREE statement of "time is the integral of
+# 240000 / bpm over measures": for any two positions (origin, tempo events, notes, hold tails) with no tempo
+# event strictly between them, the elapsed time is the measures between them at the tempo active at the first.
+
+
+def _mk_hit(measure, column=0):
+    from reamber.o2jam.O2JHit import O2JHit
+
+    h = O2JHit(offset=0.0, column=column)
+    h.measure = measure
+    return h
+
+
+def _mk_hold(measure, tail_measure, column=0):
+    from reamber.o2jam.O2JHold import O2JHold
+
+    h = O2JHold(offset=0.0, column=column, length=0.0)
+    h.measure = measure
+    h.tail_measure = tail_measure
+    return h
+
+
+def _ItemT(kind):
+    from pyvc.dsl import Ty, resolve, _mval
+    from pyvc.engine import SObj
+
+    def val(model, n):
+        import z3
+
+        m = _mval(model, z3.Real(n))
+        return float(Fraction(m.numerator_as_long(), m.denominator_as_long()))
+
+    class T(Ty):
+        def make(self, name, ctx):
+            import z3
+
+            if kind == "hit":
+                return SObj(resolve("reamber.o2jam.O2JHit:O2JHit"), {"data": {"offset": z3.RealVal(0), "column": 0, "volume": 0, "pan": 8}, "measure": z3.Real(name + ".measure")})
+            return SObj(resolve("reamber.o2jam.O2JHold:O2JHold"),
+                        {"data": {"offset": z3.RealVal(0), "column": 1, "length": z3.RealVal(0), "volume": 0, "pan": 8}, "measure": z3.Real(name + ".measure"), "tail_measure": z3.Real(name + ".tail_measure")})
+
+        def concretize(self, name, model):
+            if kind == "hit":
+                return _mk_hit(val(model, name + ".measure"))
+            return _mk_hold(val(model, name + ".measure"), val(model, name + ".tail_measure"), 1)
+
+    return T()
+
+
+def _active(p, init, tempo):
+    """bpm in force at measure p: the tempo event with the greatest measure <= p (the later one in file order
+    among equals), else the header tempo."""
+    best = -1
+    val = init
+    for m, b in tempo:
+        val = b if (m <= p and m >= best) else val
+        best = m if (m <= p and m >= best) else best
+    return val
+
+
+def _positions(tb, hs, ls):
+    return ([(0, 0)] + [(b.measure, b.offset) for b in tb] + [(h.measure, h.offset) for h in hs]
+            + [(h.measure, h.offset) for h in ls] + [(h.tail_measure, h.offset + h.length) for h in ls])
+
+
+ORDERS = ["tnl", "ntl", "lnt"]
+
+
+@lemma("C07", args=dict(tb=Choice([ListT(BpmEventT(), n) for n in (0, 1, 2)]), hs=Choice([ListT(_ItemT("hit"), n) for n in (0, 1)]),
+                        ls=Choice([ListT(_ItemT("hold"), n) for n in (0, 1)]), init_bpm=Real(), order=Choice([Const(o) for o in ORDERS[1:]])))
+class read_pkgs_integrates_time:
+    """read_pkgs gives every tempo event, note and hold tail the integrated time of its measure."""
+
+    max_paths = 20000
+    explore_s = 300
+    explore_s_thorough = 3000
+    args_thorough = dict(hs=Choice([ListT(_ItemT("hit"), n) for n in (0, 1, 2)]), order=Choice([Const(o) for o in ORDERS]))
+    assumes = ["shape-bounded: 0..2 tempo events, 0..1 (thorough: 2) hits, 0..1 holds in one package, two (thorough: three) file orders; measures and tempos symbolic reals",
+               "the O2JHitList / O2JHoldList / O2JBpmList constructors at the end are executed over the frame model (A2)"]
+
+    def requires(tb, hs, ls, init_bpm, order):
+        return (init_bpm > 0 and all(b.bpm > 0 and b.measure >= 0 for b in tb) and all(h.measure >= 0 for h in hs)
+                and all(h.measure >= 0 and h.tail_measure >= h.measure for h in ls))
+
+    def body(tb, hs, ls, init_bpm, order):
+        from reamber.o2jam.O2JEventPackage import O2JEventPackage
+        from reamber.o2jam.O2JMap import O2JMap
+
+        pkg = O2JEventPackage()
+        groups = dict(t=list(tb), n=list(hs), l=list(ls))
+        pkg.events = [e for g in order for e in groups[g]]
+        return O2JMap.read_pkgs([pkg], init_bpm)
+
+    def ensures_elapsed_time_is_measures_at_the_active_tempo(tb, hs, ls, init_bpm, order, result):
+        tempo = [(b.measure, b.bpm) for b in tb]
+        pos = _positions(tb, hs, ls)
+        return all(
+            implies(p <= q and all(not (p < m and m < q) for m, _ in tempo), eqr((tq - tp) * _active(p, init_bpm, tempo), 240000 * (q - p)))
+            for p, tp in pos for q, tq in pos
+        )
+
+    def ensures_result_lists_hold_the_events(tb, hs, ls, init_bpm, order, result):
+        return (len(result.hits) == len(hs) and len(result.holds) == len(ls) and len(result.bpms) == len(tb) + 1
+                and sorted(result.hits.offset.tolist()) == sorted(h.offset for h in hs)
+                and sorted(result.holds.offset.tolist()) == sorted(h.offset for h in ls)
+                and sorted(result.holds.length.tolist()) == sorted(h.length for h in ls))
+
+    def ensures_header_tempo_is_first(tb, hs, ls, init_bpm, order, result):
+        return eqr(result.bpms.offset.tolist()[0], 0) and eqr(result.bpms.bpm.tolist()[0], init_bpm)
+
+    def witnesses(rng):
+        for _ in range(80):
+            nb, nh, nl = rng.randrange(0, 3), rng.randrange(0, 2), rng.randrange(0, 2)
+            ms = [0, 0.5, 1, 1.25, 2, 3.75, 6]
+            tb = [_mk_bpm(float(rng.choice([60, 120, 177.5])), 0.0, float(rng.choice(ms))) for _ in range(nb)]
+            hs = [_mk_hit(float(rng.choice(ms))) for _ in range(nh)]
+            ls = []
+            for _ in range(nl):
+                a = float(rng.choice(ms))
+                ls.append(_mk_hold(a, a + float(rng.choice([0, 0.25, 1, 4])), 1))
+            yield dict(tb=tb, hs=hs, ls=ls, init_bpm=float(rng.choice([90, 150])), order=rng.choice(ORDERS))
